@@ -224,30 +224,26 @@ def create_table(
                 continue
             inc_items = [item.get_pos_inc() for item in items]
             maybe_new_state = LRState(grammar, state_id, symbol, inc_items)
-            target_state = maybe_new_state
-            try:
-                idx = states.index(maybe_new_state)
-                target_state = states[idx]
-            except ValueError:
-                try:
-                    idx = state_queue.index(maybe_new_state)
-                    target_state = state_queue[idx]
-                except ValueError:
-                    pass
 
-            if target_state is maybe_new_state:
-                # We've found a new state. Register it for later processing.
+            # Find a state with the same kernel items. There may be several
+            # of them if LALR merging has been refused before.
+            # LALR: Try to merge states, i.e. update items follow sets.
+            target_state = None
+            for existing_state in chain(states, state_queue):
+                if existing_state == maybe_new_state and (
+                    itemset_type is not LR_1
+                    or merge_states(existing_state, maybe_new_state)
+                ):
+                    target_state = existing_state
+                    break
+
+            if target_state is None:
+                # We've found a new state (or a state that can't be merged
+                # with any state with the same kernel items). Register it
+                # for later processing.
+                target_state = maybe_new_state
                 state_queue.append(target_state)
                 state_id += 1
-            else:
-                # A state with this kernel items already exists.
-                # LALR: Try to merge states, i.e. update items follow sets.
-                if itemset_type is LR_1 and not merge_states(
-                    target_state, maybe_new_state
-                ):
-                    target_state = maybe_new_state
-                    state_queue.append(target_state)
-                    state_id += 1
 
             # Create entries in GOTO and ACTION tables
             if isinstance(symbol, NonTerminal):
